@@ -74,7 +74,9 @@ def run_config(pid, cfg, tier, seed, timeout_ms, max_paths):
             post(env, cfg, results)
     except HarnessError as e:
         res['error'] = f"HarnessError: {e}"
-    except Exception as e:  # harness bug: never a verdict
+    except (KeyboardInterrupt, SystemExit):
+        raise
+    except BaseException as e:  # harness bug or a foreign runtime panic (pyo3): never a verdict, never unpicklable
         res['error'] = f"{type(e).__name__}: {e}\n{traceback.format_exc(limit=8)}"
     res['explore_s'] = round(time.time() - t0, 3)
     # concrete replay of each distinct failure (first per finding key; bounded)
